@@ -12,10 +12,10 @@ E_UNITS = {'J/mol': 1.0, 'kJ/mol': 1e3, 'kcal/mol': 4184.0, 'cal/mol': 4.184, 'e
            'MJ/kmol': 1e3, 'mJ/mmol': 1.0, 'kJ/kmol': 1.0, 'BTU/mol': 1054.35026444, 'erg/mol': 1e-7, 'J/mmol': 1e3,
            'daJ/mol': 10.0, 'dacal/mol': 41.84, 'hJ/mol': 100.0, 'J/damol': 0.1,
            # the same units written with negative powers
-           'kJ mol^-1': 1e3, 'J kmol^-1': 1e-3, 'cal mmol^-1': 4184.0, 'eV molecule^-1': 1.602176487e-19 * 6.02214179e23, 'MJ kmol^-1': 1e3}
+           'mJ/mol': 1e-3, 'mcal/mol': 4.184e-3, 'kJ mol^-1': 1e3, 'J kmol^-1': 1e-3, 'cal mmol^-1': 4184.0, 'eV molecule^-1': 1.602176487e-19 * 6.02214179e23, 'MJ kmol^-1': 1e3}
 S_UNITS = {'J/(mol K)': 1.0, 'J/(mol*K)': 1.0, 'J/mol/K': 1.0, 'cal/(mol K)': 4.184, 'cal/(mol*K)': 4.184, 'kJ/(mol K)': 1e3,
            'kcal/(kmol K)': 4.184, 'mJ/(mol mK)': 1.0, 'J/(mol kK)': 1e-3, 'eV/(molecule K)': 1.602176487e-19 * 6.02214179e23,
-           'daJ/(mol K)': 10.0, 'J/(mol daK)': 0.1, 'J mol^-1 K^-1': 1.0, 'J kmol^-1 K^-1': 1e-3, 'cal mol^-1 mK^-1': 4184.0, 'kJ kmol^-1 K^-1': 1.0}
+           'daJ/(mol K)': 10.0, 'J/(mol daK)': 0.1, 'mJ/(mol K)': 1e-3, 'mcal/(mol K)': 4.184e-3, 'mcal/(mol*K)': 4.184e-3, 'mJ/mol/K': 1e-3, 'J mol^-1 K^-1': 1.0, 'J kmol^-1 K^-1': 1e-3, 'cal mol^-1 mK^-1': 4184.0, 'kJ kmol^-1 K^-1': 1.0}
 T_UNITS = {'K': 1.0, 'mK': 1e-3, 'kK': 1e3, 'hK': 100.0, 'cK': 0.01, 'daK': 10.0, 'dK': 0.1}
 GROUPS = ['C(C)(H)3', 'C(C)2(H)2', 'O(C)(H)', 'CO(C)(H)']
 
@@ -35,8 +35,8 @@ def truth(rng):
     return t
 
 
-def fmt_num(rng, x):
-    """a number as YAML text: int-looking when integral, sometimes"""
+def fmt_num(rng, x, dot=False):
+    """a number as YAML text: int-looking when integral, sometimes; with dot=True sometimes without the digit before the point (.5, -.25)"""
     if float(x) == int(x) and rng.random() < 0.5:
         return str(int(x))
     r = repr(float(x))
@@ -44,6 +44,8 @@ def fmt_num(rng, x):
         r = ('%.25f' % float(x)).rstrip('0')
         if r.endswith('.'):
             r += '0'
+    if dot and 0 < abs(float(x)) < 1 and rng.random() < 0.5:
+        r = r.replace('0.', '.', 1)
     return r
 
 
@@ -54,10 +56,13 @@ def present(rng, x_si, units, mode, default):
         v = x_si / f
         return fmt_num(rng, v), (default, ('num', float(fmt_num(rng, v)) if False else v))
     u = rng.choice(sorted(units))
+    if 'm' + default in units and rng.random() < 0.25:
+        u = 'm' + default           # the file's default unit with a prefix in front of it
     v = x_si / units[u]
-    txt = '%s %s' % (fmt_num(rng, v), u) if v >= 0 else '(%s) %s' % (fmt_num(rng, v), u)
+    n_ = fmt_num(rng, v, dot=True)
+    txt = '%s %s' % (n_, u) if v >= 0 else '(%s) %s' % (n_, u)
     if v < 0 and rng.random() < 0.7:
-        txt = '%s %s' % (fmt_num(rng, v), u)
+        txt = '%s %s' % (n_, u)
     return txt, (None, ('str', txt))
 
 
